@@ -135,6 +135,12 @@ def scan_file(path, mod):
 
 def sites_of(fn):
     out = []
+    # a memoising decorator keeps results in a store that outlives the call (module-level state keyed by the arguments)
+    for d in getattr(fn.node, "decorator_list", []):
+        name = d.func if isinstance(d, ast.Call) else d
+        text = name.attr if isinstance(name, ast.Attribute) else getattr(name, "id", "")
+        if "cache" in text.lower() or "memo" in text.lower():
+            out.append((fn.qual, "global", "<memo of " + fn.qual.rsplit(".", 1)[1] + ">", "decorator:" + text, fn.node.lineno))
 
     def rec(r, op, node):
         if r is None:
